@@ -33,9 +33,12 @@ unsafe impl GlobalAlloc for Counting {
 
 /// `tdecm <rustname> <hex>`: like `tdec`, plus the number of bytes allocated while decoding and printing.
 pub fn run_tdecm(w: &[&str]) -> String {
+    crate::typed::PLAIN.with(|p| p.set(true));
+    crate::typed::warm();
     let before = ALLOCATED.load(Ordering::Relaxed);
     let r = crate::typed::run_dec(w);
     let after = ALLOCATED.load(Ordering::Relaxed);
+    crate::typed::PLAIN.with(|p| p.set(false));
     format!("{} alloc={}", r, after - before)
 }
 
